@@ -67,7 +67,9 @@ def run(pid, tier, seed):
             orig_imps = applygen.import_keys(orig)
             for k in (0, 3):
                 for overwrite in (False, True):
-                    strategy = S.IGNORE if overwrite else S.OMIT
+                    # without overwriting `apply` feeds libcst a stub that replicates the existing annotations (as MonkeyType
+                    # renders them); `stub --omit-existing-annotations` leaves them out: both are exercised
+                    strategy = S.IGNORE if overwrite else (S.REPLICATE if si % 2 == 0 else S.OMIT)
                     plain = si % 3 == 2          # every third source: a stub over builtins only, i.e. without any import
                     stub_text = build_module_stubs_from_traces(applygen.traces_for(mod, k, plain), k, strategy)[name].render()
                     stub_tree = ast.parse(stub_text)
